@@ -44,7 +44,7 @@ ASSUMPTIONS = [
     "a FormulaValue that announces a string with no STRING record after it is treated as malformed (no value cell; model = implementation), not as a legal layout",
     "the shared-string table is an environment of the Coq sheet model (e_strings = the logical strings); its decoding across CONTINUE records is C12's theorem C12_sst_any_split, and the generated files with rich / phonetic strings and cuts inside characters, rgRun and ExtRst tie the composition parse_sst -> parse_label_sst -> range to the real code",
 ]
-TMP = os.path.join(vlib.CACHE, "tmp", "c02")
+TMP = os.path.join(vlib.CACHE, "tmp", "c02-%d" % os.getpid())
 ERRS = [0x00, 0x07, 0x0F, 0x17, 0x1D, 0x24, 0x2A, 0x2B]          # cerr order of RK.v
 ERR_CANON = {0x00: 3, 0x07: 0, 0x0F: 6, 0x17: 5, 0x1D: 2, 0x24: 4, 0x2A: 1, 0x2B: 7}   # util.rs err_code
 
